@@ -113,7 +113,7 @@ CLAIMED = {
  'C10': ('Proof: machine-checked theorems (Lean 4) about a state-machine model of the Stewart platform (IK helper, validate chain with corrective actions and re-validation, both FK paths, reverse FK, move, spinCustom, inverseJacobian, randomPos) in which every value a numeric solver returns is a universally quantified oracle input: '
          'every public call preserves coherence of the published state and so does every history of any length (induction over the history); whenever validate(), an unprotected IK or forward FK, or validate(True) reports valid, every enabled constraint holds of the state left behind; the Jacobian/force queries return both plates to the poses they found. '
          'The theorems hold for every scalar instance, including the Float instance that is run. The model is tied to sp_model.py by executing random histories on the real SP and on the model (solver outputs recorded in the harness) and comparing plates, joints, lengths, relative transform and verdicts after every call; coherence, constraints and purity are also evaluated directly on the real object. '
-         'Not modelled (histories reaching them are cut there and counted): the upside-down repair and the exception fallback of _FKRaphson; the verdict of a reversed or protected FK is decided on the implementation only.',
+         'The exception fallback between the two FK solvers and what FK does after an upside-down repair are modelled (the repaired pose itself is an oracle input); the verdict of a reversed or protected FK is decided on the implementation only.',
          'Trusted: Lean kernel, solver recording by monkeypatching inside the harness process, independent constraint formulas of the harness.',
          'Lean 4 invariant by induction over operation histories with oracle solver outputs + history-level correspondence with the real SP + direct coherence/constraint/purity falsifier',
          'DESIGN.md section 5 C10'),
